@@ -83,7 +83,7 @@ impl Property for C15 {
 
     fn runs(&self, tier: Tier) -> u64 {
         match tier {
-            Tier::Quick => 4 * 1500,
+            Tier::Quick => 4 * 6000,
             Tier::Thorough => 4 * 60_000,
         }
     }
